@@ -490,6 +490,115 @@ def lazyRow (hdr : Option (List String)) (vals : List C13.Val) : C13.DRow :=
 def lazyContext (hdr : Option (List String)) (vals : List C13.Val) (i : Nat) : C13.DRow :=
   .dropOne (lazyRow hdr vals) i
 
+/-! ## Phase 4: `take` between reader and `LabelRows` inside the model, `label_col` by header name, whole-file ARFF (dense and sparse) -/
+
+/-- `Reservoir(take)` as the pipeline stage between the reader and `LabelRows`; `none` = no `take` -/
+def sampleOpt {ρ : Type} (res : Option (Nat × List C09.Step)) (rows : List ρ) : Except Err (List ρ) :=
+  match res with
+  | none => .ok rows
+  | some (k, steps) => sampleRows k steps rows
+
+/-- `LabelRows(label_col)` + `read` over a dense table whose rows may carry headers: an index is used as it is,
+a header name is looked up in the first row's headers (`first.headers[label]`) -/
+def denseByCol (hdr : Option (List Text)) (lc : LabelCol) (given : Option LType) (table : List (List Label)) :
+    Except Err (List (Interaction (List Label))) :=
+  match lc with
+  | .index i => simDense given none i table
+  | .name nm =>
+    match table with
+    | [] => .ok []
+    | _ :: _ =>
+      match hdr with
+      | none => .error .typeError
+      | some h =>
+        match headerIndex h nm with
+        | none => .error .keyError
+        | some i => simDense given none (i : Int) table
+
+/-- what follows the CSV reader: `Reservoir(take)`, then `LabelRows` / `read` over the sampled rows -/
+def csvTail (hdr : Option (List Text)) (lc : LabelCol) (given : Option LType) (res : Option (Nat × List C09.Step))
+    (rows : List (List Text)) : Except Err (List (Interaction (List Label))) :=
+  match sampleOpt res rows with
+  | .error e => .error e
+  | .ok s => denseByCol hdr lc given (s.map (·.map textLabel))
+
+/-- `SupervisedSimulation(CsvSource(lines, has_header, delimiter=delim), label_col, label_type, take)` -/
+def csvSimT (delim : Nat) (hasHeader : Bool) (lc : LabelCol) (given : Option LType) (res : Option (Nat × List C09.Step))
+    (lines : List Text) : Except Err (List (Interaction (List Label))) :=
+  match C12.csvReaderFix (C12.excel delim) hasHeader lines with
+  | .error _ => .error .upstream
+  | .ok (hdr, rows) => csvTail hdr lc given res rows
+
+/-- `SupervisedSimulation(LibSvmSource(lines), None, label_type, take)` -/
+def libsvmSimT (given : Option LType) (res : Option (Nat × List C09.Step)) (lines : List Text) :
+    Except Err (List (Interaction (List (Text × Text)))) :=
+  match C12.libsvmRead lines with
+  | .error _ => .error .upstream
+  | .ok rows =>
+    match sampleOpt res rows with
+    | .error e => .error e
+    | .ok s => read given (s.map svmPair)
+
+/-- `SupervisedSimulation(ManikSource(lines), None, label_type, take)` -/
+def manikSimT (given : Option LType) (res : Option (Nat × List C09.Step)) (lines : List Text) :
+    Except Err (List (Interaction (List (Text × Text)))) :=
+  match C12.manikRead lines with
+  | .error _ => .error .upstream
+  | .ok rows =>
+    match sampleOpt res rows with
+    | .error e => .error e
+    | .ok s => read given (s.map svmPair)
+
+/-- the items of a sparse ARFF row (header name ↦ encoded cell) as key/value pairs of the simulation -/
+def sparseItemLabels : List (Text × C12.Cell) → Except Err (List (Val × Label))
+  | [] => .ok []
+  | (k, c) :: r =>
+    match cellLabel c with
+    | .error e => .error e
+    | .ok l => match sparseItemLabels r with | .error e => .error e | .ok t => .ok ((Val.str (textStr k), l) :: t)
+
+def sparseTable : List (List (Text × C12.Cell)) → Except Err (List (List (Val × Label)))
+  | [] => .ok []
+  | r :: rs =>
+    match sparseItemLabels r with
+    | .error e => .error e
+    | .ok l => match sparseTable rs with | .error e => .error e | .ok t => .ok (l :: t)
+
+/-- the key `LabelRows` hands to `LabelSparse` for header-keyed sparse rows: a header name as it is, an index is
+translated to its header (`first._inv.get(label, label)`: an index without a header stays the number) -/
+def sparseKey (names : List Text) : LabelCol → Val
+  | .name nm => .str (textStr nm)
+  | .index i =>
+    if i < 0 then .num (i : Rat)
+    else match names[i.toNat]? with
+      | some nm => .str (textStr nm)
+      | none => .num (i : Rat)
+
+/-- `SupervisedSimulation(ArffSource(lines), label_col, label_type, take)`: the whole file through `C12.arffRead`
+(framing, `@data`, dense or sparse decided by the first data line, encoders), then `Reservoir`, `LabelRows`, `read` -/
+inductive ArffOut
+  | dense (r : Except Err (List (Interaction (List Label))))
+  | sparse (r : Except Err (List (Interaction (List (Val × Label)))))
+
+def arffFileSim (lc : LabelCol) (given : Option LType) (res : Option (Nat × List C09.Step)) (lines : List Text) : ArffOut :=
+  match C12.arffRead lines with
+  | .error _ => .dense (.error .upstream)
+  | .ok .empty => .dense (.ok [])
+  | .ok (.dense names rows) =>
+    .dense (match sampleOpt res rows with
+      | .error e => .error e
+      | .ok s =>
+        match rowsLabels (s.map (·.cells)) with
+        | .error e => .error e
+        | .ok table => denseByCol (some names) lc given table)
+  | .ok (.sparse names rows) =>
+    .sparse (match sampleOpt res rows with
+      | .error e => .error e
+      | .ok s =>
+        match sparseTable (s.map (·.items)) with
+        | .error e => .error e
+        | .ok table => simSparse given none (sparseKey names lc) table)
+
 /-! ### vocabulary used by the property statements -/
 
 /-- the label type `read` works with: given, or inferred from the first label (`none` on no rows) -/
